@@ -53,6 +53,12 @@ def run_dispatch(case):
     cf.packet_received = Caller()
     handler = _IncomingPacketHandler(cf)
     cf.incoming = handler
+    # a second Crazyflie object in the same process with a catch-all registration of its own: nothing of this link is for it
+    cf2 = FakeCf()
+    cf2.packet_received = Caller()
+    cf2.incoming = _IncomingPacketHandler(cf2)
+    foreign = []
+    Crazyflie.add_header_callback(cf2, lambda pk: foreign.append(pk), 0, 0, 0, 0)
     log = []
     packets = [CRTPPacket(h) for h in case['packets']]
     cf.link = _Link(packets, log)
@@ -204,6 +210,8 @@ def run_dispatch(case):
     finally:
         cfmod.time = real_time
 
+    if foreign:
+        out.fail('dispatch:other-object', '%d packet(s) of this link were handed to a callback registered on another Crazyflie object' % len(foreign))
     if len(all_seen) != len(packets) or any(a is not b for a, b in zip(all_seen, packets)):
         out.fail('dispatch:all-packet-callback', 'packet_received saw %d of %d packets' % (len(all_seen), len(packets)))
     mutated = False
